@@ -56,6 +56,8 @@ Definition SIG_FTP_REJECT := 10%N.
 Definition SIG_FTP_UNGATED := 11%N.   (* a file/directory command was not refused before login *)
 Definition SIG_FTP_EVENT := 12%N.
 Definition SIG_FTP_FS := 13%N.        (* the file system changed although nobody logged in *)
+Definition SIG_LDAP_NO_EFFECT := 15%N. (* a gated operation is refused although the last successful bind of the connection named a user *)
+Definition SIG_FTP_NO_EFFECT := 16%N.  (* a file/directory command is answered 530 after a 230 on the connection *)
 
 (* first non-zero *)
 Definition orsig (a b : N) : N := if (a =? 0)%N then b else a.
@@ -119,10 +121,13 @@ Definition levent_bind_ok (dn pw : str) (e : levent) : bool :=
   (le_type e =? T_BIND)%N && ostr_eqb (le_user e) (Some (norm_dn dn)) && ostr_eqb (le_pw e) (Some pw).
 
 (* logged: an earlier bind of this connection was observed to succeed with a non-empty name.
-   Every simple bind, whatever its protocol version, must leave an event with the evaluated
-   name and the presented password (a version < 2 bind that does not: the former defect, kept
-   under its own signature). *)
-Fixpoint ldap_sig_walk (creds : list str) (logged : bool) (reqs : list lreq)
+   cur: the LAST bind of this connection that was observed to succeed named a user (a later
+   successful anonymous bind ends the login; failed binds change nothing).
+   Gated operations: served without [logged] = not gated; refused although [cur] = the login
+   has no effect.  Every simple bind, whatever its protocol version, must leave an event with
+   the evaluated name and the presented password (a version < 2 bind that does not: the former
+   defect, kept under its own signature). *)
+Fixpoint ldap_sig_walk (creds : list str) (logged cur : bool) (reqs : list lreq)
          (rps : list lreply) (evs : list levent) : N :=
   match reqs, rps, evs with
   | [], [], [] => 0%N
@@ -131,27 +136,29 @@ Fixpoint ldap_sig_walk (creds : list str) (logged : bool) (reqs : list lreq)
       | LBind ver dn pw =>
           let ok := reply_ok rp in
           let s := ldap_spec creds dn pw in
+          let named := negb (is_nil (norm_dn dn)) in
           if ok && negb s then SIG_LDAP_ACCEPT
           else if (2 <=? ver) && negb ok && s then SIG_LDAP_REJECT
           else if negb (levent_bind_ok dn pw ev)
             then (if ver <? 2 then SIG_LDAP_OLDVER_EVENT else SIG_LDAP_EVENT)
-          else ldap_sig_walk creds (logged || (ok && negb (is_nil (norm_dn dn)))) reqs' rps' evs'
+          else ldap_sig_walk creds (logged || (ok && named)) (if ok then named else cur) reqs' rps' evs'
       | LBindShort _ | LBindBadName _ =>
           if negb (le_type ev =? T_BIND)%N then SIG_LDAP_EVENT
-          else ldap_sig_walk creds logged reqs' rps' evs'
+          else ldap_sig_walk creds logged cur reqs' rps' evs'
       | LBindOther _ dn =>     (* no password is presented; the evaluated name is recorded *)
           if negb ((le_type ev =? T_BIND)%N && ostr_eqb (le_user ev) (Some (norm_dn dn)))
             then SIG_LDAP_EVENT
-          else ldap_sig_walk creds logged reqs' rps' evs'
+          else ldap_sig_walk creds logged cur reqs' rps' evs'
       | LOp tag =>
           if ldap_gated tag && reply_ok rp && negb logged then SIG_LDAP_UNGATED
-          else ldap_sig_walk creds logged reqs' rps' evs'
+          else if ldap_gated tag && negb (reply_ok rp) && cur then SIG_LDAP_NO_EFFECT
+          else ldap_sig_walk creds logged cur reqs' rps' evs'
       end
   | _, _, _ => SIG_LDAP_EVENT        (* not one reply slot and one event per request *)
   end.
 
 Definition lcase_sig (c : lcase) : N :=
-  ldap_sig_walk (lc_creds c) false (lc_reqs c) (lc_replies c) (lc_events c).
+  ldap_sig_walk (lc_creds c) false false (lc_reqs c) (lc_replies c) (lc_events c).
 
 Definition lreply_eqb (a b : lreply) : bool :=
   match a, b with
@@ -205,6 +212,8 @@ Fixpoint ftp_sig_walk (requser : str) (logged : bool) (lines : list str) (obs : 
         else ftp_sig_walk (if ok then [] else requser) (logged || ok) lines' obs'
       else if existsb (eqb_str name) ftp_gated_names && negb (refused codes) && negb logged
         then SIG_FTP_UNGATED
+      else if existsb (eqb_str name) ftp_gated_names && codes_eqb codes [530%N] && logged
+        then SIG_FTP_NO_EFFECT
       else ftp_sig_walk requser logged lines' obs'
   | _, _ => SIG_FTP_EVENT
   end.
@@ -225,15 +234,72 @@ Definition fcase_mismatch (c : fcase) : bool :=
         && list_eqb eqb_str (ftp_events (fc_lines c)) (fc_events c)
         && fs_same (f_fs fin) (fc_fs1 c)).
 
+(* ---------------- several connections on one service object ---------------- *)
+(* Each connection is judged on ITS OWN projection of the history with the single-connection
+   predicate: whatever the other connections did, an operation on a connection that has not
+   logged in must be refused, and one on a connection that has must be served. *)
+Definition conn_ids : list nat := seq 0 8.
+
+Fixpoint first_sig (l : list N) : N :=
+  match l with [] => 0%N | x :: r => orsig x (first_sig r) end.
+
+Record lmcase := mkLMCase {
+  lm_id : N;
+  lm_creds : list str;
+  lm_steps : list (nat * (lreq * lreply * levent))   (* connection, request, observed reply and event *)
+}.
+
+Definition lm_conn_sig (creds : list str) (steps : list (lreq * lreply * levent)) : N :=
+  ldap_sig_walk creds false false (map (fun x => fst (fst x)) steps)
+                (map (fun x => snd (fst x)) steps) (map snd steps).
+
+Definition lmcase_sig (c : lmcase) : N :=
+  first_sig (map (fun k => lm_conn_sig (lm_creds c) (proj k (lm_steps c))) conn_ids).
+
+Definition lm_sched (c : lmcase) : list (nat * lreq) :=
+  map (fun x => (fst x, fst (fst (snd x)))) (lm_steps c).
+
+Definition lmcase_mismatch (c : lmcase) : bool :=
+  let m := ldap_multi (lm_creds c) (fun _ => []) (lm_sched c) in
+  negb (list_eqb lreply_eqb (map (fun x => snd (fst (snd x))) m) (map (fun x => snd (fst (snd x))) (lm_steps c))
+        && list_eqb levent_eqb (map (fun x => snd (snd x)) m) (map (fun x => snd (snd x)) (lm_steps c))).
+
+Record fmcase := mkFMCase {
+  fm_id : N;
+  fm_fs0 : ffs;
+  fm_steps : list (nat * (str * list N * list str));  (* connection, line, reply codes, ftp.command events of the step *)
+  fm_fs1 : ffs
+}.
+
+Definition fm_conn_sig (steps : list (str * list N * list str)) : N :=
+  orsig (ftp_sig_walk [] false (map (fun x => fst (fst x)) steps) (map (fun x => snd (fst x)) steps))
+        (if forallb (fun x => list_eqb eqb_str (snd x) [trim_crlf (fst (fst x))]) steps
+         then 0%N else SIG_FTP_EVENT).
+
+Definition fmcase_sig (c : fmcase) : N :=
+  orsig (first_sig (map (fun k => fm_conn_sig (proj k (fm_steps c))) conn_ids))
+        (if negb (existsb (fun x => codes_eqb [230%N] (snd (fst (snd x)))) (fm_steps c))
+            && negb (fs_same (fm_fs0 c) (fm_fs1 c))
+         then SIG_FTP_FS else 0%N).
+
+Definition fmcase_mismatch (c : fmcase) : bool :=
+  let '(out, fin) := ftp_multi ftp_users (fun _ => ([], [])) (fm_fs0 c)
+                               (map (fun x => (fst x, fst (fst (snd x)))) (fm_steps c)) in
+  negb (list_eqb codes_eqb (map (fun x => outcome_codes (snd (snd x))) out)
+                           (map (fun x => snd (fst (snd x))) (fm_steps c))
+        && fs_same fin (fm_fs1 c)).
+
 (* ---------------- the three exported functions ---------------- *)
-Inductive case := CS (c : scase) | CL (c : lcase) | CF (c : fcase).
+Inductive case := CS (c : scase) | CL (c : lcase) | CF (c : fcase) | CLM (c : lmcase) | CFM (c : fmcase).
 
 Definition case_id (c : case) : N :=
-  match c with CS s => sc_id s | CL l => lc_id l | CF f => fc_id f end.
+  match c with CS s => sc_id s | CL l => lc_id l | CF f => fc_id f | CLM l => lm_id l | CFM f => fm_id f end.
 Definition case_sig (c : case) : N :=
-  match c with CS s => scase_sig s | CL l => lcase_sig l | CF f => fcase_sig f end.
+  match c with CS s => scase_sig s | CL l => lcase_sig l | CF f => fcase_sig f
+  | CLM l => lmcase_sig l | CFM f => fmcase_sig f end.
 Definition case_mismatch (c : case) : bool :=
-  match c with CS s => scase_mismatch s | CL l => lcase_mismatch l | CF f => fcase_mismatch f end.
+  match c with CS s => scase_mismatch s | CL l => lcase_mismatch l | CF f => fcase_mismatch f
+  | CLM l => lmcase_mismatch l | CFM f => fmcase_mismatch f end.
 
 Definition mismatches (cs : list case) : list N := map case_id (filter case_mismatch cs).
 
@@ -254,4 +320,10 @@ Definition tags (cs : list case) : list (N * N) :=
     | CF f => if is_nil (fc_lines f) then 0
               else 16 + (if existsb (codes_eqb [230%N]) (fc_codes f) then 2 else 0)
                       + (if existsb (codes_eqb [530%N]) (fc_codes f) then 4 else 0)
+    | CLM l => if is_nil (lm_steps l) then 0
+               else 32 + (if existsb (fun x => reply_ok (snd (fst (snd x)))) (lm_steps l) then 2 else 0)
+                       + (if existsb (fun x => negb (reply_ok (snd (fst (snd x))))) (lm_steps l) then 4 else 0)
+    | CFM f => if is_nil (fm_steps f) then 0
+               else 64 + (if existsb (fun x => codes_eqb [230%N] (snd (fst (snd x)))) (fm_steps f) then 2 else 0)
+                       + (if existsb (fun x => codes_eqb [530%N] (snd (fst (snd x)))) (fm_steps f) then 4 else 0)
     end)%N) cs.
